@@ -75,6 +75,9 @@ fn run_once_policy(data: &Path, dump: &Path, coin_name: &str, cb: &str, prefix: 
     let _ = std::fs::remove_dir_all(dump);
     let out_path = dump.parent().unwrap().join("run.out.json");
     let _ = std::fs::remove_file(&out_path);
+    let deadlock_path = dump.parent().unwrap().join("deadlock.txt");
+    let _ = std::fs::remove_file(&deadlock_path);
+    unsafe { std::env::set_var("VERIF_DEADLOCK_FILE", &deadlock_path) };
     let _ = std::io::stdout().flush();
     let pid = unsafe { libc::fork() };
     if pid < 0 {
@@ -125,7 +128,10 @@ fn run_once_policy(data: &Path, dump: &Path, coin_name: &str, cb: &str, prefix: 
     }
     // the execution ended the process itself (exit / abort / signal) before it could report
     let (code, signal) = if libc::WIFEXITED(status) { (Some(libc::WEXITSTATUS(status)), None) } else { (None, Some(libc::WTERMSIG(status))) };
-    (RunResult { code, signal, stdout: String::new(), stderr: format!("the execution terminated the process: exit {:?} signal {:?}", code, signal), files }, sched::Outcome { choices: vec![], order: vec![], regions: 0, tasks: 0, diverged: None, sync_points: 0, preemptions: 0 })
+    let deadlock = std::fs::read_to_string(&deadlock_path).unwrap_or_default();
+    // (the schedule-so-far part of the message is dropped: the observation must not depend on how the state was reached)
+    let deadlock = deadlock.split("; schedule so far").next().unwrap_or("").to_string();
+    (RunResult { code, signal, stdout: String::new(), stderr: format!("the execution terminated the process: exit {:?} signal {:?} {}", code, signal, deadlock), files }, sched::Outcome { choices: vec![], order: vec![], regions: 0, tasks: 0, diverged: None, sync_points: 0, preemptions: 0 })
 }
 
 /// The subject reads the monotonic clock (a status line every 10 s, "Done in x minutes"): inside an execution the clock is an
@@ -208,6 +214,9 @@ struct WorldSpec {
     /// --start: > 0 makes the first block the run evaluates one with several items (process-wide state that is built lazily by
     /// "the first caller" then has several first callers); 0 = from the genesis block (one transaction, one output)
     start: u64,
+    /// wide regions: items are started in creation order without choice points and only scheduling points inside closures
+    /// branch, each over a window of 3 alternatives (see rayon::sched::set_wide_mode)
+    wide: bool,
 }
 
 /// the i-th distinct warm-up script (P2PKH of a hash that encodes i)
@@ -262,8 +271,15 @@ fn build_world(w: &WorldSpec) -> ChainBuilder {
                 // if anything about them is computed inside a parallel region
                 let same = w.name.contains("same script");
                 let aba = w.name.contains("A B A");
-                let outs2: Vec<TxOut> = (0..*n_out).map(|k| TxOut { value: 60 * COIN_VALUE + k as u64, script: if aba && (k + ti) % 2 == 1 { script::p2sh(&script::h20(7)) } else { script::p2pkh(&script::h20(if same || aba { 7 } else { ti as u8 * 16 + k as u8 })) } }).collect();
-                txs.push(Tx { version: 1, segwit: false, inputs: (0..4).map(|j| TxIn::spend([0xe0 + ti as u8; 32], j)).collect(), outputs: outs2, locktime: 0, wide: 0 });
+                let outs2: Vec<TxOut> = if w.wide {
+                    // 65 scripts that differ in ONE byte (the first byte of the hash; same length, same middle and last bytes:
+                    // whatever cheap function of a script selects a stripe / bucket / slot, these tend to share it), each
+                    // occurring several times in the block
+                    (0..*n_out).map(|k| { let mut h = [7u8; 20]; h[0] = (((ti - 1) * n_out + k) % 65) as u8; TxOut { value: 1000 + k as u64, script: script::p2pkh(&h) } }).collect()
+                } else {
+                    (0..*n_out).map(|k| TxOut { value: 60 * COIN_VALUE + k as u64, script: if aba && (k + ti) % 2 == 1 { script::p2sh(&script::h20(7)) } else { script::p2pkh(&script::h20(if same || aba { 7 } else { ti as u8 * 16 + k as u8 })) } }).collect()
+                };
+                txs.push(Tx { version: 1, segwit: false, inputs: (0..4).map(|j| TxIn::spend([0xe0u8.wrapping_add(ti as u8); 32], j)).collect(), outputs: outs2, locktime: 0, wide: 0 });
                 let _ = outs;
             }
         }
@@ -341,10 +357,11 @@ fn worker(spec_path: &str, out_path: &str) {
     *IN_FLIGHT.lock().unwrap() = Some(PathBuf::from(format!("{}.inflight", out_path)));
     VERIFY.store(true, std::sync::atomic::Ordering::SeqCst);
     let spec: Value = serde_json::from_str(&std::fs::read_to_string(spec_path).unwrap()).unwrap();
-    let w = WorldSpec { name: spec["name"].as_str().unwrap().into(), coin: coin(spec["coin"].as_str().unwrap()).name, blocks: serde_json::from_value(spec["blocks"].clone()).unwrap(), warmup: spec["warmup"].as_u64().unwrap_or(0) as usize, start: spec["start"].as_u64().unwrap_or(0) };
+    let w = WorldSpec { name: spec["name"].as_str().unwrap().into(), coin: coin(spec["coin"].as_str().unwrap()).name, blocks: serde_json::from_value(spec["blocks"].clone()).unwrap(), warmup: spec["warmup"].as_u64().unwrap_or(0) as usize, start: spec["start"].as_u64().unwrap_or(0), wide: spec["wide"].as_bool().unwrap_or(false) };
     sched::set_preemption_bound(spec["preemption_bound"].as_u64().unwrap_or(0) as usize);
     sched::set_warmup_regions(if w.warmup > 0 { 4 } else { 0 });
     START.store(w.start, std::sync::atomic::Ordering::SeqCst);
+    sched::set_wide_mode(w.wide, if w.wide { 3 } else { 0 });
     // (calendar clock: the monotonic one stands still in a process that runs executions inline)
     let deadline = spec["budget_ms"].as_u64().map(|ms| std::time::SystemTime::now() + std::time::Duration::from_millis(ms));
     let root = scratch();
@@ -422,6 +439,7 @@ fn explore_world(rep: &mut Report, root: &Path, exe: &Path, tag: &str, w: &World
     // genesis block and warm-up block: one region for the block, one for its single transaction, each
     sched::set_warmup_regions(if w.warmup > 0 { 4 } else { 0 });
     START.store(w.start, std::sync::atomic::Ordering::SeqCst);
+    sched::set_wide_mode(w.wide, if w.wide { 3 } else { 0 });
     let mut sync_points_seen = 0u64;
     let sig = if pbound == 0 { "outcome-depends-on-schedule" } else { "outcome-depends-on-interleaving-inside-closures" };
     let chain = build_world(w);
@@ -434,7 +452,7 @@ fn explore_world(rep: &mut Report, root: &Path, exe: &Path, tag: &str, w: &World
         return 0;
     }
     let dump = wdir.join("dump");
-    let predicted: f64 = w.blocks.iter().map(|b| predicted_block(b)).product();
+    let predicted: f64 = if w.wide { 1.0 } else { w.blocks.iter().map(|b| predicted_block(b)).product() };
     // baseline (schedule []) per callback, compared with the model; then split the tree two levels deep
     let mut jobs: Vec<Value> = Vec::new();
     let mut failed_baselines: Vec<(String, String)> = Vec::new();
@@ -458,6 +476,10 @@ fn explore_world(rep: &mut Report, root: &Path, exe: &Path, tag: &str, w: &World
             // business of C01/C07/C08/C15/C16. Recorded, not judged.
             rep.count(&format!("note:schedule-0-differs-from-model:{}", msig), 1);
         }
+        if r.stderr.contains("VERIF-DEADLOCK") {
+            rep.disagree("deadlock-under-the-controlled-scheduler", format!("{} {} {}: the run cannot complete under schedule [] (items in creation order): {}", w.coin, w.name, cb, r.stderr.chars().take(500).collect::<String>()), json!({"kind": "schedule", "world": {"name": w.name, "coin": w.coin, "blocks": if w.wide { vec![] } else { w.blocks.clone() }, "wide_blocks": if w.wide { Some(&w.blocks) } else { None }, "warmup": w.warmup, "start": w.start, "wide": w.wide}, "callback": cb, "schedule": [], "preemption_bound": pbound}));
+            continue;
+        }
         let baseline = observe(&r, &wdir);
         if r.code != Some(0) {
             // not necessarily the harness: a waiting task may make even schedule [] the odd one out. Judged below.
@@ -479,7 +501,7 @@ fn explore_world(rep: &mut Report, root: &Path, exe: &Path, tag: &str, w: &World
                 if !p.is_empty() {
                     singles += 1;
                     if observe(&rr, &wdir) != baseline {
-                        rep.disagree(sig, format!("{} {} {}: schedule {:?} (execution order {:?}) gives a different result than schedule []", w.coin, w.name, cb, p, oc.order), json!({"kind": "schedule", "world": {"name": w.name, "coin": w.coin, "blocks": w.blocks, "warmup": w.warmup, "start": w.start}, "callback": cb, "schedule": p, "preemption_bound": pbound}));
+                        rep.disagree(sig, format!("{} {} {}: schedule {:?} (execution order {:?}) gives a different result than schedule []", w.coin, w.name, cb, p, oc.order), json!({"kind": "schedule", "world": {"name": w.name, "coin": w.coin, "blocks": w.blocks, "warmup": w.warmup, "start": w.start, "wide": w.wide}, "callback": cb, "schedule": p, "preemption_bound": pbound}));
                     }
                 }
                 for i in p.len()..oc.choices.len() {
@@ -515,7 +537,7 @@ fn explore_world(rep: &mut Report, root: &Path, exe: &Path, tag: &str, w: &World
         if myjobs.is_empty() {
             continue;
         }
-        let spec = json!({"name": w.name, "coin": w.coin, "blocks": w.blocks, "warmup": w.warmup, "start": w.start, "data": data.display().to_string(), "jobs": myjobs, "preemption_bound": pbound, "budget_ms": budget_ms});
+        let spec = json!({"name": w.name, "coin": w.coin, "blocks": w.blocks, "warmup": w.warmup, "start": w.start, "wide": w.wide, "data": data.display().to_string(), "jobs": myjobs, "preemption_bound": pbound, "budget_ms": budget_ms});
         let sp = wdir.join(format!("spec{}.json", k));
         let op = wdir.join(format!("out{}.json", k));
         std::fs::write(&sp, spec.to_string()).unwrap();
@@ -555,7 +577,7 @@ fn explore_world(rep: &mut Report, root: &Path, exe: &Path, tag: &str, w: &World
             if inflight.is_null() {
                 rep.machinery(format!("{}: worker failed before its first execution", w.name));
             } else {
-                rep.disagree(sig, format!("{} {} {}: schedule {} ended the process ({:?}) while schedule [] ran to completion", w.coin, w.name, inflight["callback"].as_str().unwrap_or("?"), inflight["schedule"], st.map(|s| s.to_string()).unwrap_or_default()), json!({"kind": "schedule", "world": {"name": w.name, "coin": w.coin, "blocks": w.blocks, "warmup": w.warmup, "start": w.start}, "callback": inflight["callback"], "schedule": inflight["schedule"], "preemption_bound": pbound}));
+                rep.disagree(sig, format!("{} {} {}: schedule {} ended the process ({:?}) while schedule [] ran to completion", w.coin, w.name, inflight["callback"].as_str().unwrap_or("?"), inflight["schedule"], st.map(|s| s.to_string()).unwrap_or_default()), json!({"kind": "schedule", "world": {"name": w.name, "coin": w.coin, "blocks": w.blocks, "warmup": w.warmup, "start": w.start, "wide": w.wide}, "callback": inflight["callback"], "schedule": inflight["schedule"], "preemption_bound": pbound}));
             }
             continue;
         }
@@ -578,7 +600,7 @@ fn explore_world(rep: &mut Report, root: &Path, exe: &Path, tag: &str, w: &World
                 rep.machinery(format!("{} {}: {} replays diverged from their prefix", w.name, cb, s["diverged"]));
             }
             if !s["violation"].is_null() {
-                rep.disagree(sig, format!("{} {} {}: schedule {} (execution order {}) gives a different result than schedule []", w.coin, w.name, cb, s["violation"]["schedule"], s["violation"]["execution_order"]), json!({"kind": "schedule", "world": {"name": w.name, "coin": w.coin, "blocks": w.blocks, "warmup": w.warmup, "start": w.start}, "callback": cb, "schedule": s["violation"]["schedule"], "preemption_bound": pbound}));
+                rep.disagree(sig, format!("{} {} {}: schedule {} (execution order {}) gives a different result than schedule []", w.coin, w.name, cb, s["violation"]["schedule"], s["violation"]["execution_order"]), json!({"kind": "schedule", "world": {"name": w.name, "coin": w.coin, "blocks": w.blocks, "warmup": w.warmup, "start": w.start, "wide": w.wide}, "callback": cb, "schedule": s["violation"]["schedule"], "preemption_bound": pbound}));
             }
         }
     }
@@ -616,6 +638,7 @@ fn explore_world(rep: &mut Report, root: &Path, exe: &Path, tag: &str, w: &World
     sched::set_preemption_bound(0);
     sched::set_warmup_regions(0);
     START.store(0, std::sync::atomic::Ordering::SeqCst);
+    sched::set_wide_mode(false, 0);
     sync_points_seen
 }
 
@@ -715,14 +738,21 @@ fn sync_part(rep: &mut Report, root: &Path, exe: &Path, sync_seen_at_bound_0: u6
     let mut worlds: Vec<WorldSpec> = Vec::new();
     for cn in ["bitcoin", "litecoin"] {
         // (--start 1: the first thing such a run evaluates is a parallel region with several items)
-        worlds.push(WorldSpec { name: "1tx x 3out, scripts A B A, --start 1".into(), coin: cn, blocks: vec![vec![3]], warmup: 0, start: 1 });
-        worlds.push(WorldSpec { name: "2tx x 2out, scripts A B A, --start 1".into(), coin: cn, blocks: vec![vec![2, 2]], warmup: 0, start: 1 });
+        worlds.push(WorldSpec { name: "1tx x 3out, scripts A B A, --start 1".into(), coin: cn, blocks: vec![vec![3]], warmup: 0, start: 1, wide: false });
+        worlds.push(WorldSpec { name: "2tx x 2out, scripts A B A, --start 1".into(), coin: cn, blocks: vec![vec![2, 2]], warmup: 0, start: 1, wide: false });
         // one output of every kind (address-bearing with value, zero-value data carrier, P2PK, P2SH)
-        worlds.push(WorldSpec { name: "1tx x 4out".into(), coin: cn, blocks: vec![vec![4]], warmup: 0, start: 0 });
+        worlds.push(WorldSpec { name: "1tx x 4out".into(), coin: cn, blocks: vec![vec![4]], warmup: 0, start: 0, wide: false });
     }
     // non-initial states: 4100 distinct scripts evaluated before the explored block
-    worlds.push(WorldSpec { name: "after 4100 distinct scripts: 1tx x 4out, oldest-of-4096 / new / next / new".into(), coin: "bitcoin", blocks: vec![vec![4]], warmup: 4100, start: 0 });
-    worlds.push(WorldSpec { name: "after 4100 distinct scripts: 1tx x 4out, oldest-of-1024 / new / next / new".into(), coin: "litecoin", blocks: vec![vec![4]], warmup: 4100, start: 0 });
+    worlds.push(WorldSpec { name: "after 4100 distinct scripts: 1tx x 4out, oldest-of-4096 / new / next / new".into(), coin: "bitcoin", blocks: vec![vec![4]], warmup: 4100, start: 0, wide: false });
+    worlds.push(WorldSpec { name: "after 4100 distinct scripts: 1tx x 4out, oldest-of-1024 / new / next / new".into(), coin: "litecoin", blocks: vec![vec![4]], warmup: 4100, start: 0, wide: false });
+    // wide regions (size thresholds: "fan out / share a table only from 128 transactions, from 1024 outputs"): items in creation
+    // order, pre-emption at every scheduling point inside a closure towards the 2 oldest and the newest runnable entity
+    let mut t130 = vec![1usize];
+    t130.extend(std::iter::repeat(2).take(130));
+    worlds.push(WorldSpec { name: "wide: 130 tx x 2out, 65 scripts differing in one byte".into(), coin: "bitcoin", blocks: vec![t130.clone()], warmup: 0, start: 1, wide: true });
+    worlds.push(WorldSpec { name: "wide: 130 tx x 2out, 65 scripts differing in one byte".into(), coin: "litecoin", blocks: vec![t130], warmup: 0, start: 1, wide: true });
+    worlds.push(WorldSpec { name: "wide: 3 tx x 1030out, 65 scripts differing in one byte".into(), coin: "bitcoin", blocks: vec![vec![1, 1030, 1030, 1030]], warmup: 0, start: 1, wide: true });
     let cbs: Vec<&'static str> = vec!["csvdump", "simplestats"];
     let mut total = 0f64;
     // do these worlds meet synchronisation at all? (bound 0 on them is part of the answer and cheap: 6 + 280 schedules)
@@ -741,6 +771,9 @@ fn sync_part(rep: &mut Report, root: &Path, exe: &Path, sync_seen_at_bound_0: u6
     'bounds: for pb in 1..=max_bound {
         let caps_before = rep.caps_hit.len();
         for (i, w) in worlds.iter().enumerate() {
+            if w.wide && pb > 1 {
+                continue; // deviation bound 1 on the wide worlds (bound 2 squares thousands of scheduling points)
+            }
             explore_world(rep, root, exe, &format!("sync{}b{}", i, pb), w, &cbs, pb, Some(budget_ms), bound, &mut total);
             if rep.disagreements.keys().any(|k| k.contains("interleaving-inside-closures")) {
                 break 'bounds;
@@ -767,18 +800,18 @@ fn c13() -> Report {
     let fast = vec!["csvdump", "simplestats", "opreturn"];
     let all5 = vec!["csvdump", "simplestats", "opreturn", "unspentcsvdump", "balances"];
     for cn in ["bitcoin", "litecoin"] {
-        worlds.push((WorldSpec { name: "1tx x 4out".into(), coin: cn, blocks: vec![vec![4]], warmup: 0, start: 0 }, all5.clone()));
-        worlds.push((WorldSpec { name: "2tx x 2out".into(), coin: cn, blocks: vec![vec![2, 2]], warmup: 0, start: 0 }, all5.clone()));
-        worlds.push((WorldSpec { name: "2tx x 2out, all outputs carry the same script".into(), coin: cn, blocks: vec![vec![2, 2]], warmup: 0, start: 0 }, fast.clone()));
-        worlds.push((WorldSpec { name: "3tx x 1out".into(), coin: cn, blocks: vec![vec![1, 1, 1]], warmup: 0, start: 0 }, fast.clone()));
-        worlds.push((WorldSpec { name: "2 blocks of 2tx x 1out".into(), coin: cn, blocks: vec![vec![1, 1], vec![1, 1]], warmup: 0, start: 0 }, fast.clone()));
+        worlds.push((WorldSpec { name: "1tx x 4out".into(), coin: cn, blocks: vec![vec![4]], warmup: 0, start: 0, wide: false }, all5.clone()));
+        worlds.push((WorldSpec { name: "2tx x 2out".into(), coin: cn, blocks: vec![vec![2, 2]], warmup: 0, start: 0, wide: false }, all5.clone()));
+        worlds.push((WorldSpec { name: "2tx x 2out, all outputs carry the same script".into(), coin: cn, blocks: vec![vec![2, 2]], warmup: 0, start: 0, wide: false }, fast.clone()));
+        worlds.push((WorldSpec { name: "3tx x 1out".into(), coin: cn, blocks: vec![vec![1, 1, 1]], warmup: 0, start: 0, wide: false }, fast.clone()));
+        worlds.push((WorldSpec { name: "2 blocks of 2tx x 1out".into(), coin: cn, blocks: vec![vec![1, 1], vec![1, 1]], warmup: 0, start: 0, wide: false }, fast.clone()));
         if thorough {
-            worlds.push((WorldSpec { name: "2tx x 3out".into(), coin: cn, blocks: vec![vec![3, 3]], warmup: 0, start: 0 }, all5.clone()));
-            worlds.push((WorldSpec { name: "4tx x 1out".into(), coin: cn, blocks: vec![vec![1, 1, 1, 1]], warmup: 0, start: 0 }, fast.clone()));
+            worlds.push((WorldSpec { name: "2tx x 3out".into(), coin: cn, blocks: vec![vec![3, 3]], warmup: 0, start: 0, wide: false }, all5.clone()));
+            worlds.push((WorldSpec { name: "4tx x 1out".into(), coin: cn, blocks: vec![vec![1, 1, 1, 1]], warmup: 0, start: 0, wide: false }, fast.clone()));
         }
     }
     if thorough {
-        worlds.push((WorldSpec { name: "3tx x 2out".into(), coin: "bitcoin", blocks: vec![vec![2, 2, 2]], warmup: 0, start: 0 }, vec!["csvdump"]));
+        worlds.push((WorldSpec { name: "3tx x 2out".into(), coin: "bitcoin", blocks: vec![vec![2, 2, 2]], warmup: 0, start: 0, wide: false }, vec!["csvdump"]));
     }
     rep.rule = "for each world (txs x outputs per block) EVERY item-level schedule of the two nested parallel regions (Block::new over transactions, EvaluatedTx::new over outputs) is executed on the repository's own code with rayon replaced by a controlled-scheduler model (baton, real threads, stateless DFS over recorded choice points, no partial-order reduction); every schedule's complete observation (files, simplestats report, opreturn lines; row sets for unspent/balances) must equal schedule 0's, which must equal the reference model; non-trivial = distinct (world, callback, execution order)".into();
     let root = scratch();
@@ -827,7 +860,7 @@ fn replay(path: &str) -> i32 {
         eprintln!("not a schedule case");
         return 2;
     }
-    let w = WorldSpec { name: case["world"]["name"].as_str().unwrap().into(), coin: coin(case["world"]["coin"].as_str().unwrap()).name, blocks: serde_json::from_value(case["world"]["blocks"].clone()).unwrap(), warmup: case["world"]["warmup"].as_u64().unwrap_or(0) as usize, start: case["world"]["start"].as_u64().unwrap_or(0) };
+    let w = WorldSpec { name: case["world"]["name"].as_str().unwrap().into(), coin: coin(case["world"]["coin"].as_str().unwrap()).name, blocks: serde_json::from_value(if case["world"]["wide_blocks"].is_array() { case["world"]["wide_blocks"].clone() } else { case["world"]["blocks"].clone() }).unwrap(), warmup: case["world"]["warmup"].as_u64().unwrap_or(0) as usize, start: case["world"]["start"].as_u64().unwrap_or(0), wide: case["world"]["wide"].as_bool().unwrap_or(false) };
     let cb = case["callback"].as_str().unwrap();
     let schedule: Vec<usize> = serde_json::from_value(case["schedule"].clone()).unwrap();
     let pbound = case["preemption_bound"].as_u64().unwrap_or(0) as usize;
@@ -840,6 +873,7 @@ fn replay(path: &str) -> i32 {
     sched::set_preemption_bound(pbound);
     sched::set_warmup_regions(if w.warmup > 0 { 4 } else { 0 });
     START.store(w.start, std::sync::atomic::Ordering::SeqCst);
+    sched::set_wide_mode(w.wide, if w.wide { 3 } else { 0 });
     let (r0, _) = run_once(&data, &dump, w.coin, cb, &[]);
     let base = observe(&r0, &root);
     let (r1, o1) = run_once(&data, &dump, w.coin, cb, &schedule);
@@ -851,6 +885,10 @@ fn replay(path: &str) -> i32 {
     if a != b {
         println!("REPLAY-NONDETERMINISTIC");
         return 2;
+    }
+    if r1.stderr.contains("VERIF-DEADLOCK") {
+        println!("REPLAY-CONFIRMED: the run cannot complete under this schedule: {}", r1.stderr);
+        return 1;
     }
     if a != base {
         println!("REPLAY-CONFIRMED: schedule gives a different observation than schedule []\nschedule []: {}\nthis schedule: {}", base, a);
